@@ -1,7 +1,7 @@
 (* Property C14 - only statements, each closed by [exact]. *)
 From Coq Require Import NArith ZArith List Bool.
 Import ListNotations.
-Require Import UV.C14.Model UV.C14.Proofs UV.C14.Patch UV.C14.Pages UV.C14.Layout UV.C14.SizeOpt UV.C14.Detect UV.C14.PreEntry.
+Require Import UV.C14.Model UV.C14.Proofs UV.C14.Patch UV.C14.Pages UV.C14.Layout UV.C14.SizeOpt UV.C14.Detect UV.C14.PreEntry UV.C14.Modules.
 Local Open Scope N_scope.
 
 (* ---- which functions are selected ---- *)
@@ -33,6 +33,28 @@ Theorem C14_module_skip_sound : forall pl path so,
   forall O name, match_pattern_list O pl path so name = 0%Z.
 Proof. exact module_skip_sound. Qed.
 Print Assumptions C14_module_skip_sound.
+
+(* which modules are looked at: the main executable; libraries loaded at start-up only if some option
+   carries an '@'; a dlopen()ed library only if match_pattern_module accepts it.  A module that is NOT
+   looked at (and is not the main executable) contains no selected function, for any option string *)
+Theorem C14_unvisited_module_unselected : forall O k funcs def t lib so,
+  module_visited k funcs (parse_pattern_list O funcs def t) lib so = false ->
+  bytes_eqb def (basename lib) = false ->
+  (forall s, so = Some s -> bytes_eqb def s = false) ->
+  forall name, match_pattern_list O (parse_pattern_list O funcs def t) lib so name = 0%Z.
+Proof. exact unvisited_module_unselected. Qed.
+Print Assumptions C14_unvisited_module_unselected.
+
+(* the code as found (default module compared as a prefix): `-P plug` with executable "prog" selects
+   plug() of "prog_plugin.so", which is not looked at unless an unrelated option carries an '@' *)
+Theorem C14_default_module_prefix_legacy_refuted :
+  let pl := parse_pattern_list O1 n_plug n_prog PRegex in
+  module_visited MLoadLib n_plug pl n_plugin None = false
+  /\ bytes_eqb n_prog (basename n_plugin) = false
+  /\ match_pattern_list_legacy O1 pl n_plugin None n_plug = 1%Z
+  /\ match_pattern_list O1 pl n_plugin None n_plug = 0%Z.
+Proof. exact default_module_prefix_legacy_refuted. Qed.
+Print Assumptions C14_default_module_prefix_legacy_refuted.
 
 (* the string uftrace builds from -P/-U options (';'-joined, '!' for -U) parses back into one list
    element per option, in order, with the option's polarity, pattern and @module *)
